@@ -42,6 +42,7 @@ def run(run, h):
         honest_case(run, h, pts, batch, rng, M, cid, cb, mb, ctx)
         forger_family(run, h, pts, batch, rng, M, cid, cb, mb, ctx)
         compensating_family(run, h, pts, batch, rng, M, cid, cb, mb, ctx)
+        degenerate_true_statements(run, h, pts, batch, rng, M, cid, cb, mb, ctx)
     generated_merchant_case(run, h, rng)
     batch.flush()
 
@@ -194,6 +195,50 @@ def forger_family(run, h, pts, batch, rng, M, cid, cb, mb, ctx):
             if run.tier == "quick" and strat in ("a_honest_algorithm", "d_solve_T") and rng.random() < 0.6:
                 continue
             attempt(run, h, pts, batch, rng, M, cid, cb, mb, ctx, agreed, name, ms, mc, strat)
+
+
+def degenerate_true_statements(run, h, pts, batch, rng, M, cid, cb, mb, ctx):
+    """proofs of TRUE statements whose response scalars vanish (hidden nonce / lock 0 with commitment scalar 0, blinding
+    factors 0 with commitment scalars 0, a zero balance with commitment scalar 0): the verifier's equations hold, so they
+    must be accepted; a verifier that treats a zero response specially computes another relation"""
+    agreed = (cid_scalar(cid), cb, mb)
+    variants = [("lock_zero", {"lock": 0}, {"ks": {2: 0}}), ("nonce_zero", {"nonce": 0}, {"ks": {1: 0}}),
+                ("state_blinding_zero", {}, {"bf_s": 0, "kbf_s": 0}), ("close_blinding_zero", {}, {"bf_c": 0, "kbf_c": 0}),
+                ("lock_and_nonce_zero", {"lock": 0, "nonce": 0}, {"ks": {1: 0, 2: 0}})]
+    if mb == 0:
+        variants.append(("merchant_balance_zero", {}, {"ks": {4: 0}}))
+    if cb == 0:
+        variants.append(("customer_balance_zero", {}, {"ks": {3: 0}}))
+    for nm, hid, rn in variants:
+        nonce, lock = hid.get("nonce", rand_nz(rng)), hid.get("lock", rand_nz(rng))
+        ms = [agreed[0], nonce, lock, cb % Q, mb % Q]
+        mc = [agreed[0], CLOSE, lock, cb % Q, mb % Q]
+        rnd = {"bf_s": rand_nz(rng), "kbf_s": rand_nz(rng), "ks": [rand_nz(rng) for _ in range(5)],
+               "bf_c": rand_nz(rng), "kbf_c": rand_nz(rng), "kc": [rand_nz(rng) for _ in range(5)]}
+        for k, v in rn.items():
+            if k == "ks":
+                for j, x in v.items():
+                    rnd["ks"][j] = x
+            else:
+                rnd[k] = v
+        h.begin()
+        r0 = merchant_init(h, M, cid, cb, mb, wire(pts, build(M, ms, mc, rnd, 1)), ctx, u=rand_nz(rng))
+        if r0["chal"] is None:
+            h.end()
+            continue
+        final = build(M, ms, mc, rnd, r0["chal"]["c"])
+        r1 = merchant_init(h, M, cid, cb, mb, wire(pts, final), ctx, u=rand_nz(rng))
+        case = {"op": "true_statement", "variant": nm, "cid": cid.hex(), "cb": cb, "mb": mb, "hidden_state": ms, "hidden_close": mc,
+                "accepted": r1["ok"], "script": h.end()}
+        run.case(case)
+        run.count("degenerate true statement " + nm)
+        run.check_monitor("true_statement_with_vanishing_responses_accepted", r1["ok"], case)
+        if r1["chal"] is None:
+            continue
+
+        def cmp(r, case=case, ok=r1["ok"]):
+            run.check_corr("corr.C01.establish_verify", bool(r[0]) == ok, dict(case, model=r[0]))
+        batch.add("r_establish_verify %s %s %s %s %s %s" % (coq_pk(M.pk), zlit(agreed[0]), zlit(cb), zlit(mb), coq_eproof_args(final), zlit(r1["chal"]["c"])), cmp)
 
 
 def generated_merchant_case(run, h, rng):
